@@ -25,6 +25,13 @@ INFO = {
  'C27-4': ('C27', 'escape bytes swapped through shared constants (00 -> FF 00)', 'values with an embedded 0x00 against values with a non-zero byte there; blobs lose prefix-freedom'),
  'C18-4': ('C18', 'allocate_page skips ensure_allocated (and its meta/bitmap flush) for pages taken from a hole', 'free, reuse, close without a further flush, reopen: the on-disk bitmap says free, the next allocation overwrites the page'),
  'C18-5': ('C18', 'make_room_for_next_record sizes the run as len / 512 + 1 and uses that for the copy and free loops too', 'a relocation: the neighbouring structure page that blocked the table is freed as well and later reused'),
+ 'C20-4': ('C20', 'order_compare_non_null: the is_nan() guards of the Int-vs-Float arms become is_finite() plus a sign test', 'a NaN next to an Int in the sort key: NaN sorts below integers as the left operand and above them as the right one, the result depends on input order'),
+ 'C20-5': ('C20', 'execute_order_by tests `val_a == val_b` (structural) before order_compare and no longer continues on Equal', 'sort keys equal in the Cypher order but not structurally (1 and 1.0) with a second sort item: the later items are ignored, SKIP/LIMIT slice the wrong rows'),
+ 'C23-4': ('C23', 'AND truth table tidied into a compact form that loses the (false, _) row', '`false AND null` (in RETURN, under NOT, in De Morgan / commutativity checks): null instead of false'),
+ 'C23-5': ('C23', 'numeric_binop tests the exact result with unsigned_abs() <= i64::MAX', 'an exact +, - or * result of exactly i64::MIN: returned as Float although representable'),
+ 'C28-4': ('C28', 'BTree::mark_reachable_pages no longer queues the right child of every separator cell (only right sibling and leftmost child)', 'a B-tree with an internal page below the root (three levels): non-leftmost internal pages are dropped by the vacuum'),
+ 'C28-5': ('C28', 'node-table range in vacuum::mark_reachable_pages becomes 0..=len/512', 'a node count that is a non-zero multiple of 512: one page past the table is marked and the copy fails with PageNotAllocated'),
+ 'C28-6': ('C28', 'write_vacuum_copy copies runs of consecutive pages in chunks of 128 but computes the file offset once per run', 'more than 128 live pages with consecutive ids: pages beyond the 128th of a run come back as zero pages'),
  'C18-1': ('C18', 'Pager keeps an in-memory free list that allocate_page pops before scanning the bitmap; ensure_allocated never removes from it', 'a page is freed, the node table (length a multiple of 512) grows in place into it, then another structure allocates: allocate_page returns an allocated page'),
  'C18-2': ('C18', 'make_room_for_next_record updates self.i2e_start itself and returns (); the caller keeps writing at the start page it read before the call (two cooperating sites)', 'a relocation of the node table (length a non-zero multiple of 512 and the next page taken): record 512 is written into the neighbouring structure\'s page'),
  'C18-3': ('C18', 'BlobStore::write_direct lays the chain out front to back at first, first+1, ... instead of at the pages it allocated', 'a blob longer than one page whose first page is a hole with an allocated right-hand neighbour'),
@@ -38,17 +45,22 @@ INFO = {
  'C28-2': ('C28', 'mark_reachable_pages marks the statistics root with a plain insert instead of walking the blob chain', 'a statistics blob longer than one page (> ~680 labels + relationship types): tail pages dropped, counts read as 0'),
  'C28-3': ('C28', 'write_vacuum_copy sets next_page_id = 2 + copied pages instead of max reachable + 1', 'a database compacted several times (holes below the highest live page) and writes after the vacuum: allocate_page hands out live pages'),
 }
-for sid, (prop, what, needs) in sorted(INFO.items()):
-    d = os.path.join(S, sid)
-    if not os.path.isdir(d):
-        continue
-    conf = json.load(open(os.path.join(d, 'confirm.json'))) if os.path.exists(os.path.join(d, 'confirm.json')) else None
-    det = json.load(open(os.path.join(d, 'detect.json'))) if os.path.exists(os.path.join(d, 'detect.json')) else None
-    meta = dict(id=sid, breaks_property=prop, change=what, needs_to_manifest=needs,
-                written_by='fresh sub-agent given only the property text and its own scratch worktree of /repo (nothing from /verif)',
-                confirmed=dict(how='tools/confirm_seed.py in scratch worktree /tmp/seed-confirm (removed afterwards): git apply patch.diff; cargo test --workspace --no-fail-fast --offline (suite must pass apart from the timing-flaky t341 test); cargo test --test <demo> must fail; git apply -R; the demo must pass',
-                               result=conf),
-                detection=dict(how='tools/try_seed.py: git -C /repo apply patch.diff; ./check %s --tier quick --no-evidence; git -C /repo checkout -- .' % prop, result=det))
-    json.dump(meta, open(os.path.join(d, 'meta.json'), 'w'), indent=1)
-    st = 'n/a' if det is None else ('DETECTED' if det['exit'] == 1 else ('undecided' if det['exit'] == 2 else 'missed'))
-    print(sid, prop, 'confirmed' if conf and conf.get('confirmed') else 'unconfirmed', st, (det or {}).get('replays', [{}])[0].get('obligation', '') if det and det.get('replays') else '')
+def main():
+    for sid, (prop, what, needs) in sorted(INFO.items()):
+        d = os.path.join(S, sid)
+        if not os.path.isdir(d):
+            continue
+        conf = json.load(open(os.path.join(d, 'confirm.json'))) if os.path.exists(os.path.join(d, 'confirm.json')) else None
+        det = json.load(open(os.path.join(d, 'detect.json'))) if os.path.exists(os.path.join(d, 'detect.json')) else None
+        meta = dict(id=sid, breaks_property=prop, change=what, needs_to_manifest=needs,
+                    written_by='fresh sub-agent given only the property text and its own scratch worktree of /repo (nothing from /verif)',
+                    confirmed=dict(how='tools/confirm_seed.py in scratch worktree /tmp/seed-confirm (removed afterwards): git apply patch.diff; cargo test --workspace --no-fail-fast --offline (suite must pass apart from the timing-flaky t341 test); cargo test --test <demo> must fail; git apply -R; the demo must pass',
+                                   result=conf),
+                    detection=dict(how='tools/try_seed.py: git -C /repo apply patch.diff; ./check %s --tier quick --no-evidence; git -C /repo checkout -- .' % prop, result=det))
+        json.dump(meta, open(os.path.join(d, 'meta.json'), 'w'), indent=1)
+        st = 'n/a' if det is None else ('DETECTED' if det['exit'] == 1 else ('undecided' if det['exit'] == 2 else 'missed'))
+        print(sid, prop, 'confirmed' if conf and conf.get('confirmed') else 'unconfirmed', st, (det or {}).get('replays', [{}])[0].get('obligation', '') if det and det.get('replays') else '')
+
+
+if __name__ == '__main__':
+    main()
